@@ -81,6 +81,11 @@ def drive_(a, rng):
             k = ts.keep_intervals(fivs, simplify=False, record_provenance=False)
             case["ops"].append(dict(op="keep_intervals", base="in", ivs=ivs, b=A(k.dump_tables())))
             ragged("keep_intervals", k.dump_tables(), rts.keep_intervals(fivs, simplify=False, record_provenance=False).dump_tables())
+            tfac = ts.dump_tables()
+            tfac.keep_intervals(fivs, simplify=False, record_provenance=False)
+            if not tfac.equals(k.dump_tables(), ignore_provenance=True) and case["ragged_ok"]:
+                case["ragged_ok"] = 0
+                case["ragged_why"] = "TableCollection.keep_intervals differs from TreeSequence.keep_intervals"
         else:
             k = None
         if len(ivs) == 0 or sum(y - x for x, y in ivs) < L:
@@ -117,6 +122,11 @@ def drive_(a, rng):
         r = ts.delete_sites(gen.arg_form(rng, ids), record_provenance=False)
         case["ops"].append(dict(op="delete_sites", base="in", ids=ids, b=A(r.dump_tables())))
         ragged("delete_sites", r.dump_tables(), rts.delete_sites(ids, record_provenance=False).dump_tables())
+        tfac = ts.dump_tables()
+        tfac.delete_sites(ids, record_provenance=False)
+        if not tfac.equals(r.dump_tables(), ignore_provenance=True) and case["ragged_ok"]:
+            case["ragged_ok"] = 0
+            case["ragged_why"] = "TableCollection.delete_sites differs from TreeSequence.delete_sites"
     # cutoff times on the doubled grid: below, at, between and above node times
     t2 = rng.randint(-1, 2 * max(a["time"]) + 1)
     tf = tmap(t2 / 2)
